@@ -97,3 +97,11 @@ reg("C18", "model_checking",
     "plus every length 0..193 x every hit position x all 64 alignments; all of it plain and with the vector extensions masked",
     "Memory safety is observed (guard pages, SetPanicOnFault), not proved; haystacks have at most 2-3 special bytes.",
     "TLA+ block-scan model checked by TLC; TLC-generated cases replayed into the implementation (three-way)", "DESIGN.md §6 C18")
+
+reg("C07", "model_checking",
+    "Totality: every TLC-enumerated pattern string (bounded token strings, limit families) through Compile, and every TLC-generated (pattern, haystack) plus a "
+    "pumped copy through 14 groups of calls, with panics and missed deadlines as failures. Memory safety: haystacks flush against PROT_NONE pages on either "
+    "side, haystack pages read-only, faults attributed to the call. Well-formedness: the predicates TLC asserts of the reference (WFSlots, WFAll in "
+    "spec/MC_Search.tla) evaluated on every value the implementation returns, plus aliasing of returned slices",
+    "Exhaustive over the bounded universe for the predicates; memory safety and termination are observations (guard pages, deadline).",
+    "TLC-generated inputs; spec predicates evaluated on the implementation's results; fault observation", "DESIGN.md §6 C07")
